@@ -147,6 +147,7 @@ func RunFilterSession(plan FilterPlan, onStep func(fs *FilterSession, st *StepOb
 	// schedule; no verdict depends on it.
 	injected := false
 	if plan.ReorgAt != "" {
+		s.NoMidProbe = true
 		neutrino.VerifSetPointHook(func(name string) {
 			if name != plan.ReorgAt || injected {
 				return
